@@ -16,7 +16,17 @@ func main() {
 	defer cleanupScratch()
 	switch os.Args[1] {
 	case "verify":
-		os.Exit(cmdVerify(os.Args[2:]))
+		code := cmdVerify(os.Args[2:])
+		cleanupScratch()
+		os.Exit(code)
+	case "check":
+		code := cmdCheck(os.Args[2:])
+		cleanupScratch()
+		os.Exit(code)
+	case "replay":
+		code := cmdReplay(os.Args[2:])
+		cleanupScratch()
+		os.Exit(code)
 	default:
 		fmt.Fprintln(os.Stderr, "unknown command", os.Args[1])
 		os.Exit(2)
